@@ -26,6 +26,7 @@ import GraphiqModel.Proofs.CommuteTableau
 import GraphiqModel.Proofs.CommuteRecordRw
 import GraphiqModel.Proofs.CommuteHilbert
 import GraphiqModel.Proofs.CommuteProb
+import GraphiqModel.Proofs.SweepCommuteDM
 namespace Graphiq.C13
 open Graphiq Graphiq.Wire
 
@@ -922,5 +923,49 @@ example : ∃ c4, exC3.assignNoise [12, 14, 4, 13, 7] = .ok c4 ∧ Commute.Rewri
       .tail (.tail (.tail (.tail (.refl _) (.unwrap [2, 6])) (.group [⟨.e, 0⟩, ⟨.p, 0⟩, ⟨.c, 0⟩])) (.removeIdentity []))
         (.assignNoise _ c4 hr)
     exact ⟨c4, rfl, hchain, hchain.flat_eq exC_good⟩
+
+/-! ## 2g (sweep). the commutation hypothesis discharged for a density-matrix semantics
+
+  `Commute.appD ne np : SOp → DSt → DSt` (Proofs/SweepCommuteDM.lean) reads an operation of the compile sequence exactly as the
+  stabilizer semantics `Commute.appRaw` does — same decoding (`Commute.decode`), outcomes attached to the measured registers —
+  but acts on complex `2ⁿ × 2ⁿ` matrices: gates conjugate by their unitaries (`Hilbert.gateMat`), a measurement with recorded
+  outcome `o` conjugates by the projector `Hilbert.projZ n q o` (unnormalised branch: the trace is the probability of the recorded
+  outcomes; an impossible branch is the zero matrix).  The hypothesis `hcomm` of §2 is a theorem for it
+  (`Hilbert.local_conj_comm` of deep-c01's `Proofs/HilbertBridgeCommute.lean`: matrices local on disjoint qubit sets commute),
+  for **every** matrix — not only for stabilizer states —, so the three theorems of §2 hold for the density-matrix reading of the
+  compile loop with no physical assumption.  (With *forced* measurement settings instead of attached outcomes independent
+  measurements do not commute, see `exF` below; `DMH.dmRunH` of C01 is setting-driven and is tied to the stabilizer run by
+  `C01.backends_agree`, hence to these statements through §2c / §2f.) -/
+
+/-- **operations on disjoint quantum registers commute in the density-matrix semantics** (every matrix, every outcome
+    assignment) -/
+theorem density_matrix_ops_on_disjoint_registers_commute (ne np : Nat) (a b : SOp) (h : ∀ r, r ∈ a.regs → r ∉ b.regs)
+    (s : Commute.DSt (ne + np)) :
+    Commute.appD ne np a (Commute.appD ne np b s) = Commute.appD ne np b (Commute.appD ne np a s) :=
+  Commute.appD_comm ne np a b h s
+
+/-- `same_wires_same_state` for the density-matrix semantics -/
+theorem same_wires_same_state_dm (ne np : Nat) (l1 l2 : List SOp) (hne1 : ∀ a, a ∈ l1 → a.regs ≠ [])
+    (hne2 : ∀ a, a ∈ l2 → a.regs ≠ []) (h : ∀ r, projReg SOp.regs r l1 = projReg SOp.regs r l2) (s : Commute.DSt (ne + np)) :
+    runSeq (Commute.appD ne np) l1 s = runSeq (Commute.appD ne np) l2 s :=
+  same_wires_same_state SOp.regs (Commute.appD ne np) (Commute.appD_comm ne np) l1 l2 hne1 hne2 h s
+
+/-- **the density matrix a circuit compiles to does not depend on the topological order** `sequence()` returns — every
+    circuit, every pair of linear extensions, every initial matrix, every assignment of outcomes to the measuring operations -/
+theorem compile_independent_of_topological_order_dm (ne np : Nat) (c : Circuit) (hgood : c.Good) (seq1 seq2 : List Nat)
+    (hl1 : c.isLinearExtension seq1 = true) (hl2 : c.isLinearExtension seq2 = true) (s : Commute.DSt (ne + np)) :
+    runSeq (Commute.appD ne np) (c.sops seq1) s = runSeq (Commute.appD ne np) (c.sops seq2) s :=
+  compile_independent_of_topological_order (Commute.appD ne np) (Commute.appD_comm ne np) c hgood seq1 seq2 hl1 hl2 s
+
+/-- **copying, unwrapping, grouping, removing identities and attaching an empty noise map — and any chain of them — do not
+    change the density matrix the circuit compiles to** -/
+theorem rewrite_chain_preserves_compiled_state_dm (ne np : Nat) (c c' : Circuit) (hgood : c.Good) (h : Commute.RewritesStar c c')
+    (seq seq' : List Nat) (hl : c.isLinearExtension seq = true) (hl' : c'.isLinearExtension seq' = true)
+    (s : Commute.DSt (ne + np)) :
+    runSeq (Commute.appD ne np) (c'.sops seq') s = runSeq (Commute.appD ne np) (c.sops seq) s :=
+  rewrite_chain_preserves_compiled_state (Commute.appD ne np) (Commute.appD_comm ne np) c c' hgood h seq seq' hl hl' s
+
+/-- the hypothesis of the commutation theorems is met by real operations: a Hadamard on emitter 0 and a CNOT on photons 0, 1 -/
+example : ∀ r, r ∈ [(⟨.e, 0⟩ : Reg)] → r ∉ [(⟨.p, 0⟩ : Reg), ⟨.p, 1⟩] := by decide
 
 end Graphiq.C13
